@@ -1,12 +1,20 @@
 """RG - gates: declarative obligations decided on the CFG.
 
 Gate : every evaluation of TARGET in FN happens only under the facts NEEDS
-       (dominating condition edges + short-circuit context; locals resolved).
+       (every entry->target path passes a condition edge establishing the
+       fact, or the short-circuit context does); `forbid` lists facts that must
+       NOT dominate the target (a guard that became too strong); `exact`
+       demands that no other fact at all dominates it.
 Pass : every path from the entry of FN to TARGET passes a statement that
        contains THROUGH (must-pass-through).
+Form : every node selected by TARGET has a source form matching FORM
+       (who-may-produce / argument discipline).
+Must : among the statements evaluated under facts UNDER there is one
+       matching CONTAINS (a branch that must perform a step).
 Each entry is a necessary condition of the property it serves, confirmed by
-reading the code (one line of reason per entry).  A target that is no longer
-found is ANALYSIS-ERROR (the table needs maintenance), never a violation.
+reading the code (one line of reason per entry).  A target/branch that is no
+longer found is ANALYSIS-ERROR (the table needs maintenance), never a
+violation.
 """
 
 from __future__ import annotations
@@ -16,7 +24,7 @@ import re
 from dataclasses import dataclass, field
 
 from ..core import AnalysisError, Program, Report, src, walk_own
-from ..gates import FnView, has_fact, require, view
+from ..gates import FnView, holds, need_facts, require, view
 
 SIMPLE = (ast.Assign, ast.AugAssign, ast.AnnAssign, ast.Return, ast.Raise, ast.Expr, ast.Break, ast.Continue, ast.Delete)
 
@@ -32,6 +40,8 @@ class Gate:
     min: int = 1
     max: int | None = None
     rule: str = "RG"
+    forbid: tuple[str, ...] = ()
+    exact: bool = False
 
 
 @dataclass
@@ -46,6 +56,28 @@ class Pass:
     rule: str = "RG-pass"
 
 
+@dataclass
+class Form:
+    props: tuple[str, ...]
+    fn: str
+    kind: str  # ret | call | stmt | expr | arg:<k>
+    target: str
+    form: str  # regex the selected source must match (search)
+    why: str
+    min: int = 1
+    rule: str = "RG-form"
+
+
+@dataclass
+class Must:
+    props: tuple[str, ...]
+    fn: str
+    under: list  # facts selecting the branch
+    contains: str  # regex on a simple statement evaluated under those facts
+    why: str
+    rule: str = "RG-must"
+
+
 def one_line(n: ast.AST) -> str:
     return " ".join(src(n).split())
 
@@ -56,7 +88,7 @@ def find_targets(v: FnView, kind: str, pattern: str) -> list[ast.AST]:
         cands = v.find(lambda n: isinstance(n, SIMPLE))
     elif kind == "ret":
         cands = v.find(lambda n: isinstance(n, ast.Return))
-    elif kind == "call":
+    elif kind == "call" or kind.startswith("arg:"):
         cands = v.find(lambda n: isinstance(n, ast.Call))
     elif kind == "expr":
         cands = v.find(lambda n: isinstance(n, ast.expr))
@@ -78,6 +110,10 @@ def run_gates(prog: Program, report: Report, table: list, pid: str) -> None:
         if g.rule not in report.rules:
             report.rules.append(g.rule)
         v = view(prog, g.fn)
+        if isinstance(g, Must):
+            n += 1
+            _must(report, v, g)
+            continue
         targets = find_targets(v, g.kind, g.target)
         if len(targets) < g.min:
             raise AnalysisError(f"{g.rule}: {g.fn}: target /{g.target}/ found {len(targets)} time(s), expected at least {g.min} (table needs maintenance)")
@@ -86,7 +122,34 @@ def run_gates(prog: Program, report: Report, table: list, pid: str) -> None:
                 raise AnalysisError(f"{g.rule}: {g.fn}: target /{g.target}/ found {len(targets)} times, expected at most {g.max}")
             for t in targets:
                 n += 1
-                require(report, g.rule, v, t, g.needs, g.why.split(";")[0], g.why)
+                ok = require(report, g.rule, v, t, g.needs, g.why.split(";")[0], g.why)
+                if ok and (g.forbid or g.exact):
+                    dom = v.guards(t, resolve=False)
+                    bad = [f for f in g.forbid if holds(dom, f)]
+                    if g.exact:
+                        allowed = {x for nd in g.needs for a in ([nd] if isinstance(nd, str) else nd) for x in need_facts(a)}
+                        bad += sorted(dom - allowed)
+                    if bad:
+                        report.violate(g.rule, v.fn, t, f"over-guarded: {one_line(t)[:100]}", f"{g.why}; it is additionally guarded by {bad}, so it no longer happens in cases where it must", what=f"{g.why.split(';')[0]}: no stronger guard than {g.needs}")
+        elif isinstance(g, Form):
+            rx = re.compile(g.form)
+            for t in targets:
+                n += 1
+                if g.kind.startswith("arg:"):
+                    k = int(g.kind[4:])
+                    args = t.args  # type: ignore[attr-defined]
+                    if not (-len(args) <= k < len(args)):
+                        report.violate(g.rule, v.fn, t, f"{g.why.split(';')[0]}: {one_line(t)[:100]}", f"{g.why}; argument {k} is missing", what=f"argument {k} of /{g.target}/ matches /{g.form}/")
+                        continue
+                    text = one_line(args[k])
+                elif g.kind == "ret":
+                    text = one_line(t.value) if t.value is not None else "None"  # type: ignore[attr-defined]
+                else:
+                    text = one_line(t)
+                if rx.search(text):
+                    report.ob(g.rule, g.fn, f"{g.why.split(';')[0]}: [{text[:80]}] has the required form")
+                else:
+                    report.violate(g.rule, v.fn, t, f"{g.why.split(';')[0]}: {text[:100]}", f"{g.why}; found `{text[:100]}`", what=f"/{g.target}/ has form /{g.form}/")
         else:
             rx = re.compile(g.through)
             through = []
@@ -106,4 +169,20 @@ def run_gates(prog: Program, report: Report, table: list, pid: str) -> None:
                     report.ob(g.rule, g.fn, f"every path to [{one_line(t)[:80]}] passes /{g.through}/")
                 else:
                     report.violate(g.rule, v.fn, t, f"{g.why.split(';')[0]}: {one_line(t)[:100]}", f"{g.why}; a path from the function entry reaches this statement without passing `{g.through}`", what=f"every path to the target passes /{g.through}/")
-    report.count("RG gate/pass obligations", n)
+    report.count("RG gate/pass/form obligations", n)
+
+
+def _must(report: Report, v: FnView, g: Must) -> None:
+    rx = re.compile(g.contains)
+    branch = []
+    for s in v.find(lambda n: isinstance(n, SIMPLE)):
+        dom = v.guards(s)
+        if all(any(holds(dom, a) for a in ([nd] if isinstance(nd, str) else nd)) for nd in g.under):
+            branch.append(s)
+    if not branch:
+        raise AnalysisError(f"{g.rule}: {g.fn}: no statement is evaluated under {g.under} (branch vanished; table needs maintenance)")
+    hit = [s for s in branch if rx.search(one_line(s))]
+    if hit:
+        report.ob(g.rule, g.fn, f"{g.why.split(';')[0]}: the branch under {g.under} contains [{one_line(hit[0])[:70]}]")
+    else:
+        report.violate(g.rule, v.fn, branch[0], f"{g.why.split(';')[0]}: branch under {g.under} lacks /{g.contains}/", f"{g.why}; the branch consists of: {[one_line(s)[:50] for s in branch][:6]}", what=f"branch under {g.under} contains /{g.contains}/")
